@@ -14,7 +14,7 @@ import re
 
 import onnx_ir as ir
 
-from vfpy import gen_ir, iso_ir, snapshot
+from vfpy import c03_scopes, gen_ir, iso_ir, snapshot
 from vfpy.gen_ops import Gen
 from vfpy.world import World
 
@@ -23,11 +23,19 @@ LEVEL = "exploration"
 RULE = ("a case is one generated structural IR model (nested subgraphs with captures, functions, every attribute "
         "kind, several tensor implementations, typed/untyped values, symbolic/unknown dims, denotations, metadata, "
         "unsorted node order, empty-named trailing outputs), half of them further edited by 1-30 random public edits; "
-        "models that are not well scoped or need non-unique names are skipped and counted; non-trivial = >=4 nodes "
+        "in half of the cases value names are then made to repeat ACROSS scopes (every graph counting its own values "
+        "from val_0, or single values borrowing the name of a value of an enclosing/nested/sibling graph or function) "
+        "as far as every reference still resolves lexically (innermost scope first), and in 45% the opset imports of "
+        "the model/functions are redrawn over both spellings of the default domain, standard, custom and unused "
+        "domains and small/large versions; "
+        "models that are not well scoped or whose references cannot be resolved by name are skipped and counted; non-trivial = >=4 nodes "
         "and >=3 generator features among {subgraph, function, captured value, non-tensor type, metadata, lazy/proto/"
         "string/low-bit tensor, unsorted order, edit history}; distinct = hash of the serialized proto")
 ASSUMPTIONS = [
-    "value names are unique per model and every used value is defined in scope (enforced by the harness, not by NameFixPass)",
+    "value names are unique per scope and every use resolves, innermost enclosing scope first, to the used value "
+    "(decided by vfpy/c03_scopes.lexical_problems, not by serde or NameFixPass); names may repeat across scopes",
+    "opset imports: the set of (domain, version) pairs is judged with 'ai.onnx' and '' naming one domain; a mere "
+    "respelling of the default domain or a reordering is counted as report_only",
     "documented non-serialised state is not compared: Node.version, meta stores, const_value of non-initializers, opset imports of nested graphs",
     "a value with a shape but no type is outside the judged domain (the serializer documents that it skips the shape); counted as report_only",
     "initializers without const_value are skipped by the serializer as documented; such models are not judged",
@@ -44,7 +52,10 @@ def plan(tier: str) -> dict:
         "shards": 16,
         "budget_s": 35 if quick else 540,
         "floors": {"roundtrips_judged": 3000 if quick else 150000, "snapshots_compared": 3000 if quick else 150000,
-                   "edited_models_judged": 400 if quick else 20000},
+                   "edited_models_judged": 400 if quick else 20000,
+                   "judged_with_cross_scope_names": 600 if quick else 30000,
+                   "judged_with_shadowed_capture": 40 if quick else 2000,
+                   "judged_with_both_default_domain_spellings": 300 if quick else 15000},
         "min_nontrivial": 1000,
     }
 
@@ -57,14 +68,32 @@ def norm_path(diff: str) -> str:
     return f"{path}|{msg}"
 
 
+_PAIRING = re.compile(r"left value (\S+) is paired with (\S+), right value (\S+) with (\S+)$")
+
+
+def roundtrip_signature(diffs: list[str]) -> str:
+    """Mechanism-level signature of a failed isomorphism.  A connectivity difference is the root cause of
+    whatever attribute differences the mispaired values show next to it, and the nesting depth at which it
+    was seen is an instance detail: name it first and collapse the depth."""
+    conn = next((d for d in diffs if ": connectivity differs: " in d), None)
+    if conn is None:
+        return "roundtrip|" + norm_path(diffs[0])
+    path = re.sub(r"(\.node\.attr\.g)+", ".node.attr.g*", norm_path(conn).split("|")[0])
+    m = _PAIRING.search(conn)
+    names = ({x.rstrip(",") for x in m.groups()} - {"None"}) if m else set()
+    if len(names) == 1:
+        return f"roundtrip|{path}|reference resolved to another value of the same name"
+    return f"roundtrip|{path}|connectivity differs"
+
+
 def unsupported(model: ir.Model) -> list[str]:
     out = list(iso_ir.well_scoped(model))
     for f in model.functions.values():
         if len(f.graph.initializers):
             out.append("function body with initializers (FunctionProto has no initializer field)")
+    out.extend(c03_scopes.lexical_problems(model))
     graphs = [model.graph] + [f.graph for f in model.functions.values()]
     seen = set()
-    names: dict[str, int] = {}
     while graphs:
         g = graphs.pop()
         if id(g) in seen:
@@ -75,8 +104,6 @@ def unsupported(model: ir.Model) -> list[str]:
                 out.append("initializer without const_value")
         vals = list(g.inputs) + list(g.initializers.values()) + [o for n in g for o in n.outputs]
         for v in {id(v): v for v in vals}.values():
-            if v.name:
-                names[v.name] = names.get(v.name, 0) + 1
             if v.shape is not None and v.type is None:
                 out.append("shape without type")
         for n in g:
@@ -91,9 +118,6 @@ def unsupported(model: ir.Model) -> list[str]:
                         graphs.append(a.value)
                     elif a.type == ir.AttributeType.GRAPHS:
                         graphs.extend(a.value)
-    dup = [n for n, c in names.items() if c > 1]
-    if dup:
-        out.append(f"duplicate value names {dup[:3]}")
     return out
 
 
@@ -111,6 +135,10 @@ def build(ctx, case):
             w.apply(g.op())
         edited = True
         feats.add("edit_history")
+    # the dimensions below draw from their own stream, so the base models are those of earlier versions
+    xr = ctx.rng(case, "scopes")
+    if xr.random() < 0.3 and c03_scopes.add_deep_captures(model, xr):
+        feats.add("deep_capture_graph")
     gen_ir.uniquify_names(model)
     # omitted optional outputs may be unnamed as None as well as "" (a graph names None outputs
     # when the node is added, so this state is reached by un-naming afterwards)
@@ -125,6 +153,11 @@ def build(ctx, case):
     if (model.ir_version or 0) >= 11 and not edited and rng.random() < 0.7:
         if gen_ir.annotate_devices(model, rng):
             feats.add("device_annotations")
+    if xr.random() < 0.5:
+        if c03_scopes.collide_names(model, xr):
+            feats.add("cross_scope_names")
+    if xr.random() < 0.45:
+        feats |= c03_scopes.vary_opset_imports(model, xr)
     return model, feats, edited
 
 
@@ -174,8 +207,20 @@ def judge(ctx, model, feats, edited, case):
         ctx.violation(f"deserialize-own-output-raised|{type(e).__name__}",
                       f"from_proto(to_proto(model)) raised {e!r}"[:1500], {"case": case, "seed": ctx.seed})
         return
-    diffs = iso_ir.compare_models(model, back)
+    iso = c03_scopes.Iso()
+    diffs = iso.model(model, back)
+    for what in iso.report_only:
+        ctx.count("report_only_" + what)
     ctx.count("roundtrips_judged")
+    if "cross_scope_names" in feats:
+        ctx.count("judged_with_cross_scope_names")
+        for rel, k in c03_scopes.cross_scope_collisions(model).items():
+            if k:
+                ctx.count("cross_scope_names:" + rel)
+        if c03_scopes.shadowed_captures(model):
+            ctx.count("judged_with_shadowed_capture")
+    if "opset_both_default_spellings" in feats:
+        ctx.count("judged_with_both_default_domain_spellings")
     if edited:
         ctx.count("edited_models_judged")
     nnodes = sum(1 for _ in model.graph.all_nodes())
@@ -189,7 +234,7 @@ def judge(ctx, model, feats, edited, case):
         ctx.sample({"case": case, "nodes": nnodes, "features": sorted(feats), "edited": edited,
                     "text": str(model.graph)[:600]})
     if diffs:
-        ctx.violation("roundtrip|" + norm_path(diffs[0]),
+        ctx.violation(roundtrip_signature(diffs),
                       "IR -> proto -> IR is not isomorphic:\n  " + "\n  ".join(diffs[:8]), {"case": case, "seed": ctx.seed})
 
 
